@@ -37,6 +37,100 @@ static struct jls_core_s core;
 #define DANGLING CUT
 #endif
 
+#ifdef WITH_INDEX
+/* A track with one surviving level-1 INDEX/SUMMARY pair (decimate factor 2):
+ *   0 HEAD [0]->1 [1]->3 | 1 DATA a0 ->2 | 2 DATA a1 ->5 | 3 INDEX {a0,a1} -> IDX_NEXT | 4 SUMMARY -> SUM_NEXT | 5 DATA a2 -> DANGLING | cut
+ * IDX_NEXT / SUM_NEXT / DANGLING: 0 or the offset of a chunk lost with the cut (per instance). */
+#ifndef IDX_NEXT
+#define IDX_NEXT (OFF(6) + 0 * ST_STRIDE)
+#endif
+#ifndef SUM_NEXT
+#define SUM_NEXT (OFF(6) + 1 * ST_STRIDE)
+#endif
+#undef CUT
+#define CUT OFF(6)
+void harness(void) {
+    struct jls_core_signal_s * sig = &core.signal_info[1];
+    sig->parent = &core;
+    sig->signal_def.signal_id = 1;
+    sig->signal_def.signal_type = JLS_SIGNAL_TYPE_FSR;
+    sig->chunk_def.offset = 64;
+    struct jls_core_track_s * track = &sig->tracks[TRACK];
+    track->parent = sig;
+    track->track_type = TRACK;
+    core.raw = &st_raw;
+    core.buf = jls_buf_alloc();
+    ASSUME(core.buf != NULL);
+
+    const uint8_t t_data = jls_track_tag_pack(TRACK, JLS_TRACK_CHUNK_DATA);
+    int64_t heads[JLS_SUMMARY_LEVEL_COUNT];
+    memset(heads, 0, sizeof(heads));
+    heads[0] = OFF(1);
+    heads[1] = OFF(3);
+    st_hdr[0].tag = jls_track_tag_pack(TRACK, JLS_TRACK_CHUNK_HEAD);
+    st_hdr[0].chunk_meta = 1;
+    st_hdr[0].payload_length = sizeof(heads);
+    memcpy(st_pay[0], heads, sizeof(heads));
+    static const unsigned data_at[3] = {1, 2, 5};
+    for (unsigned d = 0; d < 3; ++d) {
+        unsigned k = data_at[d];
+        st_hdr[k].tag = t_data;
+        st_hdr[k].chunk_meta = 1;
+        st_hdr[k].payload_length = 32;
+        st_hdr[k].item_prev = d ? (uint64_t) OFF(data_at[d - 1]) : 0;
+        st_hdr[k].item_next = (d < 2) ? (uint64_t) OFF(data_at[d + 1]) : (uint64_t) (DANGLING);
+        for (unsigned b = 0; b < 32; ++b) { SYM_SET(uint8_t, st_pay[k][b], "payload"); }
+    }
+    SYM_I64(ts0);
+    SYM_U32(dts);
+    ASSUME(ts0 > -((int64_t) 1 << 40) && ts0 < ((int64_t) 1 << 40) && dts < 1000);
+    struct { struct jls_payload_header_s h; struct jls_index_entry_s e[2]; } ix;
+    ix.h.timestamp = ts0; ix.h.entry_count = 2; ix.h.entry_size_bits = 128; ix.h.rsv16 = 0;
+    ix.e[0].timestamp = ts0; ix.e[0].offset = (uint64_t) OFF(1);
+    ix.e[1].timestamp = ts0 + dts; ix.e[1].offset = (uint64_t) OFF(2);
+    st_hdr[3].tag = jls_track_tag_pack(TRACK, JLS_TRACK_CHUNK_INDEX);
+    st_hdr[3].chunk_meta = (uint16_t) (1 | (1 << 12));
+    st_hdr[3].payload_length = sizeof(ix);
+    st_hdr[3].item_next = (uint64_t) (IDX_NEXT);
+    memcpy(st_pay[3], &ix, sizeof(ix));
+    st_hdr[4].tag = jls_track_tag_pack(TRACK, JLS_TRACK_CHUNK_SUMMARY);
+    st_hdr[4].chunk_meta = (uint16_t) (1 | (1 << 12));
+    st_hdr[4].payload_length = 16 + 2 * 16;
+    st_hdr[4].item_next = (uint64_t) (SUM_NEXT);
+    for (unsigned b = 0; b < 48; ++b) { SYM_SET(uint8_t, st_pay[4][b], "payload"); }
+    st_n = 6;
+    st_last_payload_length = 32;
+    st_pos = OFF(6);
+    static struct jls_chunk_header_s h0[6];
+    static uint8_t p0[6][ST_PMAX];
+    memcpy(h0, st_hdr, sizeof(h0));
+    memcpy(p0, st_pay, sizeof(p0));
+    track->head.offset = OFF(0);
+    track->head.hdr = st_hdr[0];
+    memcpy(track->head_offsets, heads, sizeof(heads));
+
+    int32_t rc = jls_track_repair_pointers(track);
+    CHECK(rc == 0, "pointer repair succeeds");
+    CHECK(st_n == 6, "pointer repair appends nothing");
+    int64_t disk[JLS_SUMMARY_LEVEL_COUNT];
+    memcpy(disk, st_pay[0], sizeof(disk));
+    SYM_U32(lv);
+    ASSUME(lv < JLS_SUMMARY_LEVEL_COUNT);
+    CHECK(disk[lv] == track->head_offsets[lv], "the head offsets stored in the file equal the in-memory ones the repairing open goes on to use");
+    CHECK(disk[0] == OFF(1) && disk[1] == OFF(3), "surviving levels keep their heads");
+    CHECK(lv < 2 || disk[lv] == 0, "no other level appears");
+    SYM_U32(wk);
+    ASSUME(wk >= 1 && wk <= 5);
+    CHECK(st_hdr[wk].item_next == 0 || st_index((int64_t) st_hdr[wk].item_next) >= 0, "no item_next of a surviving chunk points to something that is not a chunk of the file");
+    CHECK(st_hdr[wk].item_next == h0[wk].item_next || (st_index((int64_t) h0[wk].item_next) < 0 && st_hdr[wk].item_next == 0), "a link is either untouched or a dangling one cleared");
+    CHECK(st_hdr[wk].item_prev == h0[wk].item_prev && st_hdr[wk].payload_length == h0[wk].payload_length && st_hdr[wk].chunk_meta == h0[wk].chunk_meta && st_hdr[wk].tag == h0[wk].tag,
+          "the rest of every surviving header is untouched");
+    SYM_U32(wb);
+    ASSUME(wb < 48);
+    CHECK(st_pay[wk][wb] == p0[wk][wb], "payloads of the surviving chunks are untouched");
+    WITNESS_END();
+}
+#else
 void harness(void) {
     struct jls_core_signal_s * sig = &core.signal_info[1];
     sig->parent = &core;
@@ -105,3 +199,4 @@ void harness(void) {
     CHECK(st_inplace_pay <= 1, "the only payload rewritten is the HEAD chunk's");
     WITNESS_END();
 }
+#endif
